@@ -80,6 +80,44 @@ theorem previous_walk_complete (tbl : List Row) (hU : UniqueIds tbl) (keep : Row
       allData pages.reverse = pre :=
   walk_back_spec hU keep ps hps b o f xferCol (fun _ _ _ => cursor_accepted_back _ ⟨hfit, hf⟩) pre.length pre y B (Nat.le_refl _) hL fuel hfuel
 
+/-- **has_more_iff_next**: whatever query `UsingColumn` is handed (any position, forwards or backwards, states no walk
+reaches included), the page says `hasMore` exactly when a `next` token comes with it.  A client that follows `next` until
+`hasMore` is false therefore stops exactly where the tokens stop — on pages reached through `previous` too -/
+theorem has_more_iff_next {F} (tbl : List Row) (keep : Row → Bool) (q : ColQuery F) (pg : Page (ColQuery F))
+    (h : pageCol tbl keep q = .ok pg) : pg.hasMore = pg.next.isSome := by
+  unfold pageCol at h
+  split at h
+  · cases h
+  · unfold pageRows at h
+    simp only at h
+    repeat' split at h
+    all_goals first | (cases h; rfl) | cases h
+
+/-- **resume_after_previous_complete**: a client went forward in a list, then one step back with `previous`; it is now
+on the page `A` that ends just before row `y` (`bottom` is the first row of the list, as every token of a traversal
+records it).  Following `next` from THAT page until `hasMore` is false ends, and delivers the page itself followed by
+everything after it: the rest of the list from that position, each row once, in the list's order.  Together with
+`walk_next_complete` (positions reached forwards) this is the enumeration clause for every position of a traversal -/
+theorem resume_after_previous_complete (tbl : List Row) (hU : UniqueIds tbl) (keep : Row → Bool) (ps : Nat) (hps : 1 ≤ ps) (hfit : ps ≤ uint64Max)
+    (o : Order) (f : Opts) (hf : f.pageSize ≤ uint64Max) (l0 : Row) (hl0 : (listing tbl keep o).head? = some l0)
+    (pre A : List Row) (y : Row) (B : List Row) (hA : A.length = ps) (hL : listing tbl keep o = pre ++ A ++ y :: B)
+    (fuel : Nat) (hfuel : (y :: B).length < fuel) :
+    ∃ pages, walk (stepCol tbl keep) xferCol fuel ⟨ps, some l0.id, idColumn, some y.id, o, f, true⟩ = some pages ∧
+      allData pages = A ++ y :: B := by
+  have hx : ∀ b p r, xferCol (⟨ps, b, idColumn, p, o, f, r⟩ : ColQuery Opts) = some ⟨ps, b, idColumn, p, o, f, r⟩ :=
+    fun _ _ _ => cursor_accepted_back _ ⟨hfit, hf⟩
+  cases fuel with
+  | zero => omega
+  | succ fuel =>
+    obtain ⟨prev, hrev⟩ := page_rev hU keep ps hps l0.id o f pre A y B hA hL
+    have hstep := stepCol_of_ok hrev
+    obtain ⟨pg1, pages, _, hwalk1, hdata1, _⟩ :=
+      walk_fwd_spec hU keep ps hps o f xferCol hx l0 hl0 (y :: B).length (pre ++ A) y B (Nat.le_refl _) hL fuel (by omega)
+    refine ⟨⟨A, true, prev, some ⟨ps, some l0.id, idColumn, some y.id, o, f, false⟩⟩ :: pg1 :: pages,
+      by simp [walk, hstep, hx, hwalk1], ?_⟩
+    simp only [allData, List.flatMap_cons] at hdata1 ⊢
+    rw [hdata1]
+
 /-! ### offset pagination (accounts) -/
 
 /-- **offset_walk_complete**: the same two facts for `UsingOffset`; `so` is the `ORDER BY` of the caller's select -/
@@ -92,6 +130,15 @@ theorem offset_walk_complete (tbl : List Row) (keep : Row → Bool) (so : Order)
     (fun off hoff => cursor_accepted_back_offset _ ⟨hfit, by simp; omega, hf⟩)
     (listing tbl keep so).length 0 (by simp) (by omega) fuel (by simpa using hfuel)
   exact ⟨_, h1, by simpa using h2, h3⟩
+
+/-- the same flag fact for `UsingOffset` (pages of an offset-paginated list are reached through `previous` with an
+ordinary offset query, so `offset_walk_complete` started at any offset already covers them) -/
+theorem has_more_iff_next_offset {F} (tbl : List Row) (keep : Row → Bool) (so : Order) (q : OffQuery F) :
+    (pageOff tbl keep so q).hasMore = (pageOff tbl keep so q).next.isSome := by
+  unfold pageOff
+  by_cases h : (q.pageSize != 0 && decide ((select tbl keep so (if q.pageSize > 0 then some (q.pageSize + 1) else none) q.offset).length > q.pageSize)) = true
+  · simp [h]
+  · simp [h]
 
 /-! ### non-vacuity and the page-size-0 note -/
 
@@ -113,6 +160,9 @@ example : (walk (stepCol t5 (fun _ => true)) some 6 (firstCol 2 .desc ())).map (
 /-- `previous` of the second page is the first page -/
 example : (stepCol t5 (fun _ => true) ⟨2, some 11, idColumn, some 7, .desc, (), true⟩).map (fun p => p.data.map (·.id)) = some [11, 9] := by
   decide
+/-- forward twice, one step back (the page before row 2 is [7, 4]), then `next` until `hasMore` is false: the rest of the list -/
+example : (walk (stepCol t5 (fun _ => true)) some 6 ⟨2, some 11, idColumn, some 2, .desc, (), true⟩).map
+    (·.map (fun p => (p.data.map (·.id), p.hasMore))) = some [([7, 4], true), ([2], false)] := by decide
 /-- back from the last page along `previous`: the pages before it, nearest first -/
 example : (walkBack (stepCol t5 (fun _ => true)) some 6 ⟨2, some 11, idColumn, some 2, .desc, (), true⟩).map (·.map (fun p => p.data.map (·.id)))
     = some [[7, 4], [11, 9]] := by decide
